@@ -8,6 +8,8 @@ which never reads .parent/.flag and never calls the methods under test).
 Replay mode (payload = replay document): rebuilds the recorded tree and re-evaluates the oracle.
 
 Shape JSON: [is_terminal, left|None, right|None]."""
+import copy
+
 import numpy as np
 from harness import hlib
 
@@ -276,10 +278,140 @@ def grown_cases(n_spaces, rnd, tag):
     return out
 
 
+# ---------------------------------------------------------------- measure -> edit -> measure again
+def lsh_nodes(lsh):
+    """Sub-shapes of a labelled shape in root-left-right order, with depth."""
+    out = []
+
+    def go(s, d):
+        out.append((s, d))
+        for x in s[1:]:
+            if x is not None:
+                go(x, d + 1)
+    go(lsh, 0)
+    return out
+
+
+def lsh_replace(lsh, at, side, new):
+    """Functional counterpart of `node.left/right = new` on the pre-order node `at` (the expected tree)."""
+    cnt = [0]
+
+    def go(s):
+        i = cnt[0]
+        cnt[0] += 1
+        tm, l, r = s
+        if i == at:
+            # the replaced child's nodes are not numbered any more, the walk below only needs indices <= at
+            return [tm, new, r] if side == 'left' else [tm, l, new]
+        l2 = go(l) if l is not None else None
+        r2 = go(r) if r is not None else None
+        return [tm, l2, r2]
+    return go(lsh)
+
+
+def make_tree(spec):
+    """(root, labelled shape) of a fresh real tree: built from the shape, or grown again from seed/parameters."""
+    if spec.get('grow'):
+        g = spec['grow']
+        tr = grow_space(g['seed'], g['kw']).trees[g['j']]
+        return tr, extract(tr)[0]
+    return build(spec['shape'], []), spec['shape']
+
+
+def apply_edit(root, ed):
+    """`node.left = branch` / `node.right = branch` through the public setters, parent/flag as GP._mutate sets them."""
+    node = extract(root)[1][ed['at']]
+    branch = build(ed['new'], [])
+    if ed['side'] == 'left':
+        node.left = branch
+        branch.flag = True
+    else:
+        node.right = branch
+        branch.flag = False
+    branch.parent = node
+
+
+def random_script(lsh, rnd):
+    """1-3 edits; the assigned node is at depth >= 1 (>= 2 when there is one), so the new sub-tree sits >= 2 below the root."""
+    script = []
+    cur = lsh
+    for _ in range(rnd.randint(1, 3)):
+        nd = lsh_nodes(cur)
+        deep2 = [i for i, (s, d) in enumerate(nd) if d >= 2]
+        deep1 = [i for i, (s, d) in enumerate(nd) if d >= 1]
+        pool = deep2 if (deep2 and rnd.random() < 0.5) else (deep1 or [0])
+        at = rnd.choice(pool)
+        side = rnd.choice(['left', 'right'])
+        old = nd[at][0][1 if side == 'left' else 2]
+        for _try in range(6):
+            new = label_random(random_shape(rnd, rnd.randint(0, 2), 0.2, 0.4), rnd) if rnd.random() < 0.5 \
+                else label_natural(random_shape(rnd, rnd.randint(0, 2), 0.2, 0.4))
+            if old is None or len(lsh_nodes(new)) != len(lsh_nodes(old)) or depth_of(new) != depth_of(old):
+                break
+        ed = {'at': at, 'side': side, 'new': new}
+        script.append(ed)
+        cur = lsh_replace(cur, at, side, new)
+    return script
+
+
+def check_tree(root, want_lsh, which, step):
+    """Full oracle (structure, measurements, both orders, find_node for every p) of one real tree against `want_lsh`."""
+    got_lsh, nodes = extract(root)
+    if got_lsh != want_lsh:
+        return [('structure', '%s after step %d: the graph reachable through left/right is %r, expected %r'
+                 % (which, step, got_lsh, want_lsh), None, which, step)], 0
+    obs = observe(root, nodes)
+    return [(k, '%s after step %d: %s' % (which, step, m), p, which, step) for k, m, p in oracle(want_lsh, obs)], 6 + len(obs['find'])
+
+
+def run_history(spec, mode, script):
+    """measure; deepcopy; (edit; measure both trees)*.  mode 'orig': the original is edited, the copy is left alone;
+    mode 'copy': the copy is edited, the original is left alone."""
+    root, lsh = make_tree(spec)
+    fails, calls = check_tree(root, lsh, 'fresh tree', 0)          # first round: this is what a cache would remember
+    cp = copy.deepcopy(root)
+    f, n = check_tree(cp, lsh, 'deep copy', 0)
+    fails += f
+    calls += n
+    edited, untouched = (root, cp) if mode == 'orig' else (cp, root)
+    cur = lsh
+    for step, ed in enumerate(script, 1):
+        apply_edit(edited, ed)
+        cur = lsh_replace(cur, ed['at'], ed['side'], ed['new'])
+        for tree, want, which in ((edited, cur, 'edited ' + ('original' if mode == 'orig' else 'copy')),
+                                  (untouched, lsh, 'untouched ' + ('copy' if mode == 'orig' else 'original'))):
+            f, n = check_tree(tree, want, which, step)
+            fails += f
+            calls += n
+    return {'shape': lsh, 'grow': spec.get('grow'), 'mode': mode, 'script': script, 'fails': fails, 'calls': calls,
+            'final_shape': cur}
+
+
+def edit_histories(cases, n, rnd):
+    """A seeded sample of the enumerated / deep / GROW trees with at least 3 nodes and depth >= 2."""
+    pool = [c for c in cases if c.get('shape') is not None and len(lsh_nodes(c['shape'])) >= 3
+            and max(d for _, d in lsh_nodes(c['shape'])) >= 2]
+    grown = [c for c in pool if c.get('grown')]
+    out = []
+    for k in range(n):
+        c = rnd.choice(grown) if (grown and k % 3 == 2) else rnd.choice(pool)
+        spec = {'shape': c['shape'], 'grow': c.get('grow')}
+        h = run_history(spec, 'orig' if k % 2 == 0 else 'copy', random_script(c['shape'], rnd))
+        h['source'] = c['source']
+        out.append(h)
+    return out
+
+
 def main():
     doc = hlib.payload()
     if doc is not None and 'replay' in doc:
         rp = doc['replay']
+        if rp.get('kind') == 'edit':
+            h = run_history({'shape': rp['shape'], 'grow': rp.get('grow')}, rp['mode'], rp['script'])
+            keys = [f[0] for f in h['fails']]
+            hlib.emit({'fails': rp.get('oracle_key') in keys if rp.get('oracle_key') else bool(keys), 'oracle': h['fails'][:10],
+                       'obs': {'final_shape': h['final_shape']}})
+            return
         if 'shape' not in rp or rp['shape'] is None:
             hlib.emit({'fails': False, 'note': 'no concrete input recorded: ' + str(rp)[:400]})
             return
@@ -334,7 +466,8 @@ def main():
         cases.append(case_of(label_natural(sh), 'deep/natural'))
         cases.append(case_of(label_random(sh, rnd), 'deep/random-types'))
     cases += grown_cases(25 if hlib.QUICK else 600, rnd, 'grow')
-    hlib.emit({'cases': cases, 'n_exhaustive': n_exhaustive})
+    edits = edit_histories(cases, 150 if hlib.QUICK else 3000, hlib.rng('c11-edits'))
+    hlib.emit({'cases': cases, 'n_exhaustive': n_exhaustive, 'edits': edits})
 
 
 if __name__ == '__main__':
